@@ -39,9 +39,20 @@ import (
 var queryKinds = []string{"GetRoots", "GetStump", "Prove", "Verify", "GetLeafPosition", "GetLeafHashPositions",
 	"GetHash", "GetMissingPositions", "GetNumLeaves", "GetTreeRows", "Write", "VerifyPartialProof"}
 
+// verification that also remembers (of a leaf that is remembered already, so
+// that the call is a pure query as far as the other answers are concerned);
+// only used in schedules, never in the stress
+var rememberKinds = []string{"Verify/remember", "VerifyPartialProof/remember"}
+
+// answers that do not depend on which optional positions an instance stores
+var storedIndependent = map[string]bool{"GetRoots": true, "GetStump": true, "GetNumLeaves": true, "GetTreeRows": true,
+	"GetLeafPosition": true, "GetLeafHashPositions": true, "Prove": true, "Verify": true, "VerifyPartialProof": true,
+	"Verify/remember": true, "VerifyPartialProof/remember": true}
+
 type lockSchedule struct {
-	Site  int      `json:"site"`
-	Kinds []string `json:"kinds"`
+	Site   int      `json:"site"`             // writer suspended at its Site-th interior point (0: reader schedule)
+	Reader string   `json:"reader,omitempty"` // reader schedule: this query is suspended holding its lock
+	Kinds  []string `json:"kinds"`
 }
 
 func init() {
@@ -62,7 +73,7 @@ func (r *Runner) collectSchedule(l *Line) lineResult {
 		return lineResult{skipped: "bad schedule line"}
 	}
 	sort.Strings(s.Kinds)
-	key := fmt.Sprintf("%d/%s", s.Site, strings.Join(s.Kinds, ","))
+	key := fmt.Sprintf("%d/%s/%s", s.Site, s.Reader, strings.Join(s.Kinds, ","))
 	lockSched.mu.Lock()
 	defer lockSched.mu.Unlock()
 	if lockSched.seen == nil {
@@ -101,22 +112,47 @@ func (r *Runner) loadSchedules() []lockSchedule {
 // ---------------------------------------------------------------------------
 
 type pauseCtl struct {
-	hit     int // pause at the hit-th call of the hook (1-based); 0 = never
+	mu      sync.Mutex
+	hit     int    // pause at the hit-th interior point of the writer (1-based); 0 = never
+	atSite  string // or: pause the first time this (query) site is reached
 	count   int
 	sites   []string
+	done    bool
 	paused  chan struct{}
 	release chan struct{}
 }
 
 var hookMu sync.Mutex // serialises everything that installs the hook
 
+// hook is called from the library at every hook point (writer interior
+// points and, prefixed "q.", queries that have just taken their lock).
 func (p *pauseCtl) hook(site string) {
-	p.count++
-	p.sites = append(p.sites, site)
-	if p.hit != 0 && p.count == p.hit {
+	p.mu.Lock()
+	stop := false
+	if strings.HasPrefix(site, "q.") {
+		if p.atSite == site && !p.done {
+			p.done = true
+			stop = true
+		}
+	} else {
+		p.count++
+		p.sites = append(p.sites, site)
+		if p.hit != 0 && p.count == p.hit && !p.done {
+			p.done = true
+			stop = true
+		}
+	}
+	p.mu.Unlock()
+	if stop {
 		close(p.paused)
 		<-p.release
 	}
+}
+
+func (p *pauseCtl) siteList() string {
+	p.mu.Lock()
+	defer p.mu.Unlock()
+	return strings.Join(p.sites, ",")
 }
 
 // ---------------------------------------------------------------------------
@@ -214,6 +250,9 @@ type queryArgs struct {
 	vHashes []Hash
 	vProof  utreexo.Proof
 	pHashes []Hash // proof hashes for VerifyPartialProof
+	// the leaf is remembered before and after the writer's operation, so that
+	// verifying it again with remember=true changes nothing
+	rememberOK bool
 }
 
 func (c *lockCase) answer(m *utreexo.MapPollard, kind string, a *queryArgs) (out string) {
@@ -265,6 +304,22 @@ func (c *lockCase) answer(m *utreexo.MapPollard, kind string, a *queryArgs) (out
 		return fmt.Sprintf("%d %d %s %d", x.TotalRows, x.GetNumLeaves(), strings.Join(sy.Ts(x.GetRoots()), " "), x.CachedLeaves.Length())
 	case "VerifyPartialProof":
 		if err := m.VerifyPartialProof(a.targets, a.vHashes, a.pHashes, false); err != nil {
+			return "err"
+		}
+		return "ok"
+	case "Verify/remember":
+		if len(a.vHashes) == 0 || !a.rememberOK {
+			return "n/a"
+		}
+		if err := m.Verify(a.vHashes, a.vProof, true); err != nil {
+			return "err"
+		}
+		return "ok"
+	case "VerifyPartialProof/remember":
+		if len(a.vHashes) == 0 || !a.rememberOK {
+			return "n/a"
+		}
+		if err := m.VerifyPartialProof(a.targets, a.vHashes, a.pHashes, true); err != nil {
 			return "err"
 		}
 		return "ok"
@@ -378,6 +433,21 @@ func (r *Runner) replayLockCase(l *Line) lineResult {
 				ansPre[k] = c.answer(pre, k, args)
 				ansPost[k] = c.answer(post, k, args)
 			}
+			_, f0 := pre.GetLeafPosition(args.leaf)
+			_, f1 := post.GetLeafPosition(args.leaf)
+			args.rememberOK = f0 && f1 && len(args.vHashes) > 0
+			for _, k := range rememberKinds {
+				// on throw-away copies: a remembering call may change what is stored
+				ansPre[k], ansPost[k] = "n/a", "n/a"
+				if args.rememberOK && !readOp {
+					if x, _, _, err := c.build(l.Hist); err == nil {
+						ansPre[k] = c.answer(x, k, args)
+					}
+					if x, _, _, err := c.build(all); err == nil {
+						ansPost[k] = c.answer(x, k, args)
+					}
+				}
+			}
 			prevN := uint64(0)
 			if st.A == "undo" && len(stk) > 0 {
 				prevN = stk[len(stk)-1]
@@ -388,6 +458,9 @@ func (r *Runner) replayLockCase(l *Line) lineResult {
 			off := int(lineHash(l.raw) % uint64(len(scheds)))
 			for si := range scheds {
 				sc := scheds[(si+off)%len(scheds)]
+				if sc.Reader != "" {
+					continue
+				}
 				if sc.Site > opHits {
 					continue
 				}
@@ -500,7 +573,14 @@ func (r *Runner) replayLockCase(l *Line) lineResult {
 				if readOp {
 					opName = "read"
 				}
+				remembering := false
+				for _, k := range sc.Kinds {
+					remembering = remembering || strings.HasSuffix(k, "/remember")
+				}
 				for _, q := range got {
+					if remembering && !storedIndependent[q.kind] {
+						continue
+					}
 					matched := -1
 					if q.ans == ansPre[q.kind] {
 						matched = 0
@@ -509,9 +589,9 @@ func (r *Runner) replayLockCase(l *Line) lineResult {
 					}
 					r.logEvent(lockEvent{Ev: "call", Kind: q.kind, C0: 0, S1: 1, Matched: matched, Mode: "schedule"})
 					if strings.HasPrefix(q.ans, "PANIC") {
-						fail("panic", fmt.Sprintf("%s panicked while the writer (%s, TotalRows %d) was suspended at interior point %d (%s): %s", q.kind, opName, rows, sc.Site, strings.Join(ctl.sites, ","), q.ans), nil, nil)
+						fail("panic", fmt.Sprintf("%s panicked while the writer (%s, TotalRows %d) was suspended at interior point %d (%s): %s", q.kind, opName, rows, sc.Site, ctl.siteList(), q.ans), nil, nil)
 					} else if matched < 0 {
-						fail("halfapplied", fmt.Sprintf("%s issued while the writer (%s, TotalRows %d) was suspended at interior point %d (%s) returned a result that is correct neither before nor after the operation", q.kind, opName, rows, sc.Site, strings.Join(ctl.sites, ",")),
+						fail("halfapplied", fmt.Sprintf("%s issued while the writer (%s, TotalRows %d) was suspended at interior point %d (%s) returned a result that is correct neither before nor after the operation", q.kind, opName, rows, sc.Site, ctl.siteList()),
 							map[string]string{"before": ansPre[q.kind], "after": ansPost[q.kind]}, q.ans)
 					}
 				}
@@ -520,6 +600,12 @@ func (r *Runner) replayLockCase(l *Line) lineResult {
 					if a := c.answer(m, k, args); a != ansPost[k] {
 						fail("poststate", fmt.Sprintf("after %s with suspended writer and concurrent queries %v: %s", opName, sc.Kinds, k), ansPost[k], a)
 					}
+				}
+			}
+			if !readOp {
+				if dead := c.readerSchedules(r, l, scheds, n, prevN, args, ansPre, ansPost, fail, &res); dead {
+					res.fails = w.fails
+					return res
 				}
 			}
 		}
@@ -556,6 +642,140 @@ func firstLines(s string, n int) string {
 	return strings.Join(ls, "\n")
 }
 
+// readerSchedules: a query is suspended right after it has taken its lock;
+// the writer starts (and has to wait), further queries are issued (they queue
+// behind the waiting writer), then the suspended query is released.  Everyone
+// must finish, and every answer must be the one of the state before or after
+// the writer's operation.
+func (c *lockCase) readerSchedules(r *Runner, l *Line, scheds []lockSchedule, n, prevN uint64, args *queryArgs,
+	ansPre, ansPost map[string]string, fail func(cat, what string, exp, got any), res *lineResult) (deadlocked bool) {
+	st := &l.Step
+	perSite := 0
+	fmt.Sscan(optVal(r.extra, "persite", "0"), &perSite)
+	taken := 0
+	off := int(lineHash(l.raw) % uint64(len(scheds)))
+	for si := range scheds {
+		sc := scheds[(si+off)%len(scheds)]
+		if sc.Reader == "" {
+			continue
+		}
+		if perSite > 0 && taken >= 2*perSite {
+			break
+		}
+		taken++
+		m, _, _, err := c.build(l.Hist)
+		if err != nil {
+			return false
+		}
+		site := "q." + strings.TrimSuffix(sc.Reader, "/remember")
+		ctl := &pauseCtl{atSite: site, paused: make(chan struct{}), release: make(chan struct{})}
+		utreexo.VerifPoint = ctl.hook
+		type qres struct{ kind, ans string }
+		total := 1 + len(sc.Kinds)
+		out := make(chan qres, total)
+		r1 := make(chan qres, 1)
+		go func() { r1 <- qres{sc.Reader, c.answer(m, sc.Reader, args)} }()
+		reached := false
+		select {
+		case <-ctl.paused:
+			reached = true
+			go func() { out <- <-r1 }()
+		case q := <-r1:
+			// the query returned without reaching its hook point (nothing to ask, early return)
+			out <- q
+		case <-time.After(5 * time.Second):
+			go func() { out <- <-r1 }()
+		}
+		wdone := make(chan string, 1)
+		go func() {
+			var e error
+			pan := protect(func() { e = c.applyStep(m, st, n, prevN) })
+			if pan != "" {
+				wdone <- "PANIC: " + pan
+			} else if e != nil {
+				wdone <- "error: " + e.Error()
+			} else {
+				wdone <- ""
+			}
+		}()
+		// let the writer reach its Lock() and queue there
+		spin := time.Now().Add(300 * time.Microsecond)
+		for time.Now().Before(spin) {
+			runtime.Gosched()
+		}
+		for _, k := range sc.Kinds {
+			k := k
+			go func() { out <- qres{k, c.answer(m, k, args)} }()
+		}
+		spin = time.Now().Add(300 * time.Microsecond)
+		for time.Now().Before(spin) {
+			runtime.Gosched()
+		}
+		// release the suspended query (or whoever reached the point in the meantime)
+		close(ctl.release)
+		got := []qres{}
+		timeout := time.After(10 * time.Second)
+		dead := false
+		for len(got) < total && !dead {
+			select {
+			case q := <-out:
+				got = append(got, q)
+			case <-timeout:
+				dead = true
+			}
+		}
+		wmsg := ""
+		if !dead {
+			select {
+			case wmsg = <-wdone:
+			case <-time.After(10 * time.Second):
+				dead = true
+			}
+		}
+		utreexo.VerifPoint = nil
+		res.calls += total
+		res.extra["reader_schedules_run"]++
+		if reached {
+			res.extra["reader_schedules_suspended"]++
+		}
+		if dead {
+			fail("deadlock", fmt.Sprintf("deadlock: query %s suspended after taking its lock, writer %s waiting for the lock, further queries %v: not everyone finished within 10s of releasing the query", sc.Reader, st.A, sc.Kinds), nil, nil)
+			return true
+		}
+		if wmsg != "" {
+			fail("writer", "writer failed: "+wmsg, nil, nil)
+		}
+		remembering := strings.HasSuffix(sc.Reader, "/remember")
+		for _, k := range sc.Kinds {
+			remembering = remembering || strings.HasSuffix(k, "/remember")
+		}
+		for _, q := range got {
+			if remembering && !storedIndependent[q.kind] {
+				continue
+			}
+			matched := -1
+			if q.ans == ansPre[q.kind] {
+				matched = 0
+			} else if q.ans == ansPost[q.kind] {
+				matched = 1
+			}
+			r.logEvent(lockEvent{Ev: "call", Kind: q.kind, C0: 0, S1: 1, Matched: matched, Mode: "reader-schedule"})
+			if strings.HasPrefix(q.ans, "PANIC") {
+				fail("panic", fmt.Sprintf("%s panicked (query %s suspended holding its lock, writer %s waiting): %s", q.kind, sc.Reader, st.A, q.ans), nil, nil)
+			} else if matched < 0 {
+				fail("halfapplied", fmt.Sprintf("%s returned a result that is correct neither before nor after the writer's %s (schedule: query %s suspended after taking its lock, writer waiting, further queries %v)", q.kind, st.A, sc.Reader, sc.Kinds),
+					map[string]string{"before": ansPre[q.kind], "after": ansPost[q.kind]}, q.ans)
+			}
+		}
+		for _, k := range []string{"GetRoots", "GetNumLeaves"} {
+			if a := c.answer(m, k, args); a != ansPost[k] {
+				fail("poststate", fmt.Sprintf("after %s with query %s suspended: %s", st.A, sc.Reader, k), ansPost[k], a)
+			}
+		}
+	}
+	return false
+}
+
 // ---------------------------------------------------------------------------
 // free-running stress
 // ---------------------------------------------------------------------------
@@ -566,25 +786,69 @@ func (r *Runner) lockStress(l *Line, res *lineResult, fail func(cat, what string
 	if lineHash(l.raw)%2 == 1 {
 		c.rows = 0
 	}
-	// sequential references for every prefix
-	refs := make([]*utreexo.MapPollard, len(all)+1)
-	for i := 0; i <= len(all); i++ {
-		m, _, _, err := c.build(all[:i])
-		if err != nil {
+	// the writer's programme: the history, then (if it ends in a block) that
+	// block undone and applied again, several times
+	type wop struct {
+		st    Step
+		n     uint64 // leaves before the operation
+		prevN uint64 // for undo: leaves before the undone block
+	}
+	var prog []wop
+	n := uint64(0)
+	var stk []uint64
+	for i := range all {
+		st := all[i]
+		op := wop{st: st, n: n}
+		if st.A == "undo" {
+			op.prevN = stk[len(stk)-1]
+		}
+		prog = append(prog, op)
+		switch st.A {
+		case "mod":
+			stk = append(stk, n)
+			n += uint64(st.K)
+		case "undo":
+			n = stk[len(stk)-1]
+			stk = stk[:len(stk)-1]
+		}
+	}
+	cycles := 0
+	fmt.Sscan(optVal(r.extra, "cycles", "20"), &cycles)
+	if last := all[len(all)-1]; last.A == "mod" {
+		before := stk[len(stk)-1]
+		undo := Step{A: "undo", K: last.K, D: last.D, Pf: last.Pf, Pre: last.Pre}
+		for i := 0; i < cycles; i++ {
+			prog = append(prog, wop{st: undo, n: n, prevN: before})
+			prog = append(prog, wop{st: last, n: before})
+		}
+	}
+	// a sequential twin runs the same programme first: its answers after every
+	// operation are the whole-block answers
+	twin := newMap(false, c.rows)
+	var args *queryArgs
+	{
+		probe := newMap(false, c.rows)
+		for _, op := range prog[:len(all)] {
+			if err := c.applyStep(probe, &op.st, op.n, op.prevN); err != nil {
+				return
+			}
+		}
+		args = c.argsFor(probe, 0)
+	}
+	ans := make([]map[string]string, 0, len(prog)+1)
+	snap := func() {
+		a := map[string]string{}
+		for _, k := range queryKinds {
+			a[k] = c.answer(twin, k, args)
+		}
+		ans = append(ans, a)
+	}
+	snap()
+	for _, op := range prog {
+		if err := c.applyStep(twin, &op.st, op.n, op.prevN); err != nil {
 			return
 		}
-		refs[i] = m
-	}
-	args := c.argsFor(refs[len(all)], 0)
-	for i := len(all) - 1; i >= 0 && len(args.vHashes) == 0; i-- {
-		args = c.argsFor(refs[i], 0)
-	}
-	ans := make([]map[string]string, len(refs))
-	for i, m := range refs {
-		ans[i] = map[string]string{}
-		for _, k := range queryKinds {
-			ans[i][k] = c.answer(m, k, args)
-		}
+		snap()
 	}
 	m := newMap(false, c.rows)
 	var committed, started atomic.Int32
@@ -616,13 +880,13 @@ func (r *Runner) lockStress(l *Line, res *lineResult, fail func(cat, what string
 						break
 					}
 				}
-				if i%50 == 0 || matched < 0 {
+				if i%200 == 0 || matched < 0 {
 					r.logEvent(lockEvent{Ev: "call", Kind: k, C0: c0, S1: s1, Matched: matched, Mode: "stress"})
 				}
 				if matched < 0 {
 					mu.Lock()
 					if bad == 0 {
-						fail("halfapplied.stress", fmt.Sprintf("%s returned, between block %d committed and block %d started, a result that belongs to no whole-block state in that window", k, c0, s1),
+						fail("halfapplied.stress", fmt.Sprintf("%s returned, between operation %d committed and operation %d started, a result that belongs to no whole-block state in that window", k, c0, s1),
 							map[string]any{"window": []int{c0, s1}}, a)
 					}
 					bad++
@@ -631,39 +895,41 @@ func (r *Runner) lockStress(l *Line, res *lineResult, fail func(cat, what string
 			}
 		}(ri)
 	}
-	// the writer
-	n := uint64(0)
-	var stk []uint64
-	werr := ""
-	pan := protect(func() {
-		for rep := 0; rep < 1; rep++ {
-			for i := range all {
-				st := &all[i]
-				prevN := uint64(0)
-				if st.A == "undo" {
-					prevN = stk[len(stk)-1]
-				}
+	// the writer, under a watchdog
+	wres := make(chan string, 1)
+	go func() {
+		werr := ""
+		pan := protect(func() {
+			for _, op := range prog {
 				started.Add(1)
-				if err := c.applyStep(m, st, n, prevN); err != nil {
-					werr = err.Error()
+				if err := c.applyStep(m, &op.st, op.n, op.prevN); err != nil {
+					werr = "error: " + err.Error()
 					return
 				}
 				committed.Add(1)
-				switch st.A {
-				case "mod":
-					stk = append(stk, n)
-					n += uint64(st.K)
-				case "undo":
-					n = stk[len(stk)-1]
-					stk = stk[:len(stk)-1]
-				}
 				// let the readers run between blocks
-				for j := 0; j < 20; j++ {
+				for j := 0; j < 10; j++ {
 					runtime.Gosched()
 				}
 			}
+		})
+		if pan != "" {
+			werr = "PANIC: " + pan
 		}
-	})
+		wres <- werr
+	}()
+	select {
+	case werr := <-wres:
+		if strings.HasPrefix(werr, "PANIC") {
+			fail("panic", "writer panicked under concurrent queries: "+werr, nil, nil)
+		} else if werr != "" {
+			fail("writer", "writer failed under concurrent queries: "+werr, nil, nil)
+		}
+	case <-time.After(30 * time.Second):
+		fail("deadlock", fmt.Sprintf("deadlock: the writer did not complete its %d operations within 30s while %d readers were issuing queries", len(prog), nreaders), nil, nil)
+		res.extra["stress_runs"]++
+		return // the goroutines are stuck; they are abandoned
+	}
 	close(stop)
 	done := make(chan struct{})
 	go func() { wg.Wait(); close(done) }()
@@ -672,13 +938,9 @@ func (r *Runner) lockStress(l *Line, res *lineResult, fail func(cat, what string
 	case <-time.After(20 * time.Second):
 		fail("deadlock", "readers did not finish within 20s after the writer completed", nil, nil)
 	}
-	if pan != "" {
-		fail("panic", "writer panicked under concurrent queries: "+pan, nil, nil)
-	} else if werr != "" {
-		fail("writer", "writer failed under concurrent queries: "+werr, nil, nil)
-	}
 	res.calls += int(ncalls.Load())
 	res.extra["stress_runs"]++
+	res.extra["stress_writer_ops"] += len(prog)
 	res.extra["stress_queries"] += int(ncalls.Load())
 }
 
